@@ -139,6 +139,11 @@ def r2_stale_inert(ctx, f, rep):
                 rep.check(token_ok(p, i, v) is True, 'C13-R2', b.nname, '%s: effect %s only for the current epoch'
                           % (v, (e.get('res') or e.get('decl') or 'write').split('::')[-1]), site=e['span'],
                           construct='epoch-guard:%s' % v)
+        if p.end == 'return' and p.ret[0] == 'agg' and p.ret[3] == 'Err' and token_ok(p, len(p.events), v) is not True:
+            # a timer is answered with an error only after its token was found current: a stale one is ignored silently
+            # (a state test placed in front of the token test turns every late timer of an old epoch into an error)
+            rep.violation('C13-R2', b.nname, 'error-before-token-test:%s' % v, '%s: an error is returned on a path that has '
+                          'not established that the token is current' % v, facts={'ret': show(p.ret, b)[:80]})
         if token_ok(p, len(p.events), v) is False:
             stale[v] += 1
             rep.check(not any_effect and p.end == 'return' and p.ret[0] == 'agg' and p.ret[3] == 'Ok', 'C13-R2', b.nname,
@@ -222,8 +227,8 @@ def r3_loops(ctx, f, rep):
         conn = None
         for c in p.conds():
             es = q.eq_sides(c['expr'])
-            if es and q.is_self_field_load(es[1], 'connection_state') and q.is_variant(es[2], 'ConnectionState', 'Connected'):
-                conn = (q.cond_truth(c) == es[0])
+            if q.conn_state_test(f, c, 'Connected') is not None:
+                conn = q.conn_state_test(f, c, 'Connected')
         if tok is True and conn is True:
             nt += 1
             rep.check(any(e['res'] == 'Foca::probe_random_member' for e in p.calls()), 'C13-R3', hb0.nname,
@@ -273,8 +278,8 @@ def r3_loops(ctx, f, rep):
         cfg = None
         for c in p.conds():
             es = q.eq_sides(c['expr'])
-            if es and q.is_self_field_load(es[1], 'connection_state') and q.is_variant(es[2], 'ConnectionState', 'Connected'):
-                conn = (q.cond_truth(c) == es[0])
+            if q.conn_state_test(f, c, 'Connected') is not None:
+                conn = q.conn_state_test(f, c, 'Connected')
             ex = c['expr']
             if ex[0] == 'discr' and ex[1][0] == 'load' and q.field_path(ex[1][1])[1] == ['config', PERIODIC[v]]:
                 cfg = q.cond_variants(f, c) == {'Some'}
@@ -288,7 +293,13 @@ def r3_loops(ctx, f, rep):
         if subs:
             i, e = subs[0]
             t = e['args'][1]
-            good = good and q.variant_name(t) == v and q.is_self_field_load(t[5][0], 'timer_token') and \
+            # the token it re-arms with is the current one: read from self, or the event's own token on a path that has
+            # just shown it equal to self.timer_token and has not called anything that could bump it since
+            tokval = t[5][0]
+            cur = q.is_self_field_load(tokval, 'timer_token') or (
+                tokval == ('fieldv', EVENT, TOKEN_FIELD[v], v) and tok is True and
+                not any(x['kind'] == 'call' and any(a == ('ref', q.SELF, True) for a in x['args']) for x in p.events[:i]))
+            good = good and q.variant_name(t) == v and cur and \
                 q.mentions(e['args'][2], lambda x: x[0] == 'load' and q.field_path(x[1])[1][-1:] == ['frequency'] and
                            q.field_path(x[1])[1][:2] == ['config', PERIODIC[v]])
             fallible = [j for j, x in enumerate(p.events) if x['kind'] == 'call' and x['res'] in
@@ -323,13 +334,12 @@ def r4_set_config(ctx, f, rep):
                     if a[0] == 'load' and q.field_path(a[1])[1][:1] == ['config'] and b_[0] == 'fieldv' and b_[1] == new \
                             and q.field_path(a[1])[1][1:] == [b_[2]]:
                         same[b_[2]] = (q.cond_truth(c) == es[0])
-            ex = c['expr']
-            if ex[0] == 'call' and ex[1] in calls:
+            ex, truth = q.norm_bool(c)      # (the last operand of the chain may reach the test negated, through a local)
+            if truth is not None and ex[0] == 'call' and ex[1] in calls:
                 cc = calls[ex[1]]
                 short = cc['res'].split('::')[-1]
                 if short in ('is_none', 'is_some') and cc['args'][0][0] == 'ref':
                     root, names = q.field_path(cc['args'][0][1])
-                    truth = q.cond_truth(c)
                     isnone = truth if short == 'is_none' else not truth
                     if names[:1] == ['config'] and root == q.SELF:
                         was_none[names[1]] = isnone
@@ -421,12 +431,9 @@ def r6_validate(ctx, f, rep):
         calls = {c['id']: c for c in p.calls()}
         valid = None
         for c in p.conds():
-            ex = c['expr']
-            neg = False
-            if ex[0] == 'unop' and ex[1] == 'Not':
-                ex, neg = ex[2], True
-            if ex[0] == 'call' and ex[1] in calls and calls[ex[1]]['res'] == 'probe::Probe::validate':
-                valid = (q.cond_truth(c) is True) != neg
+            ex, tr = q.norm_bool(c)         # (any number of negations folded: `!validate()`, `ensure(!was_incomplete, ..)`)
+            if tr is not None and ex[0] == 'call' and ex[1] in calls and calls[ex[1]]['res'] == 'probe::Probe::validate':
+                valid = tr
                 break
         if valid is None:
             continue
